@@ -269,6 +269,32 @@ pub fn run(args: &Args) -> Report {
             }
         }
 
+        // B3. long runs: whitespace runs of 300 and 70,000 bytes at single gaps; unknown members with a 70,000-character
+        //     string value / key, a 400-digit number, a 5,000-element array, a 3,000-member object
+        {
+            let (_, ngaps) = render_event(&e1, &EvRender::plain(), &mut rng);
+            for (n, len) in [(0usize, 300usize), (1, 70_000)] {
+                for gap in (0..ngaps).filter(|g| (g + n) % 3 == 0) {
+                    let mut r = EvRender::plain();
+                    r.ws = Ws::OneGap { at: gap, bytes: (0..len).map(|k| [0x20u8, 0x09, 0x0a, 0x0d][(k + gap) % 4]).collect() };
+                    in_domain_case(&mut rep, &mut rng, &e1, &r, "long-whitespace-run", gap % 2 == 0);
+                    rep.count("long_run_cases");
+                }
+            }
+            let big_s = format!("\"{}\"", "s".repeat(70_000));
+            let big_n = "7".repeat(400);
+            let big_a = format!("[{}]", vec!["0"; 5_000].join(","));
+            let big_o = format!("{{{}}}", (0..3_000).map(|k| format!("\"k{k}\":null")).collect::<Vec<_>>().join(","));
+            for (key, val) in [("\"big\"".to_string(), big_s.clone()), (big_s.clone(), "1".to_string()), ("\"n\"".to_string(), big_n), ("\"arr\"".to_string(), big_a), ("\"obj\"".to_string(), big_o)] {
+                for pos in [0usize, 3, 7] {
+                    let mut r = EvRender::plain();
+                    r.unknown = vec![Unknown { pos, key_text: key.clone().into_bytes(), val_text: val.clone().into_bytes() }];
+                    in_domain_case(&mut rep, &mut rng, &e2, &r, "long-unknown-member", pos == 3);
+                    rep.count("long_run_cases");
+                }
+            }
+        }
+
         // C. every ASCII code point and a stratified sample of scalars, in every legal spelling
         let mut scalars: Vec<u32> = (0..128).collect();
         scalars.extend_from_slice(BOUNDARY_SCALARS);
